@@ -268,6 +268,7 @@ def corpus_layer(ctx):
 
 def correspondence(ctx, proofs_ok=True):
     import time
+    paramtable.build_gen(ctx)
     for layer in (corpus_layer, table_layer, reader_layer, module_layer, family_layer, client_layer):
         t = time.time()
         layer(ctx)
@@ -293,7 +294,7 @@ def search(ctx):
 def replay(ctx, data):
     inp = data['input']
     paramtable.gen_paramtable(ctx)
-    rc, log = fw.make(['Gen/ParamTable.vo', 'Model/RangeReader.vo'])
+    paramtable.build_gen(ctx, ('Gen/ParamTable.vo', 'Model/RangeReader.vo'))
     model, srcs, rows, idx = live(ctx)
     k = (inp['cls'], inp['name'])
     if k not in idx:
